@@ -360,7 +360,7 @@ fn real_main() -> i32 {
         Mode::Run(tier) => {
             let mut rep = Report::new("C07", tier, "model_checking");
             rep.rule("level-BFS over histories of offer(new, live_until, signer) / cancel / accept(signer) / renounce(signer) / holder-only call(signer) / advance(1|3) on the real ownable and access-control example contracts under enforcing authorization; live_until in {0, now-1, now, now+1, now+3, max, max+1}; states merged by canonical storage digest + ledger; non-trivial = distinct state reached through at least one accepted state-changing call");
-            let b = Bounds::new(tier.pick(5, 7), tier.pick(40, 600));
+            let b = Bounds::new(tier.pick(8, 12), tier.pick(40, 600));
             for w in worlds(tier) {
                 explore(&w, &b, &mut rep);
             }
